@@ -23,6 +23,7 @@ demo_mut=unexpected-pass; (cd $WT && go test -vet=off -count=1 -timeout 120s -ru
 demo_clean=unexpected-fail; (cd $WT && go test -vet=off -count=1 -timeout 120s -run "^$TNAME\$" ./$PKGDIR > $OUT/demo_clean.log 2>&1) && demo_clean=passes
 git -C /repo worktree remove --force $WT; rm -rf $WT
 # run the check on /repo with the mutation
+if [ -n "$(git -C /repo status --porcelain)" ]; then echo "seedeval: /repo has uncommitted changes; commit them first" >&2; exit 3; fi
 detected=no; status=""
 if git -C /repo apply $OUT/patch.diff; then
   /verif/check $PROP quick > $OUT/check_with_mutation.log 2>&1; rc=$?
